@@ -62,12 +62,25 @@ Section Statements.
 
   (** With every modelled panic source behind its guard (short-calldata slice, sdk.NewCoin,
       NewIntFromBigInt, collections string keys, the 256-bit overflow of the bank supply under
-      MintCoins, the slice-to-array address conversion, the gas meter's out-of-gas panic) no input makes
+      MintCoins, the slice-to-array address conversion, the decoding of a called contract's revert data,
+      the gas meter's out-of-gas panic) no input makes
       the call panic.  PARTIAL: panics inside the keeper-level bodies are outside the model. *)
   Theorem C08_no_panic_partial : forall F p k value gas inp st,
     panic_ok F = true -> input_wf inp = true ->
     r_out (call F p k value gas inp st) <> Panic.
   Proof. exact (evm_call_no_panic St body after_mint transfer). Qed.
+
+  (** "Any input" includes what the contracts CALLED BY the precompile answer (anyone can register an ERC20 as
+      a FunToken): whatever the called contract does — revert with any revert data, run out of gas, fail
+      otherwise, return data that does not decode — a body that reports it ([BNested]) makes the precompile
+      call an error of the sub-call (hence reverted and fully charged, C08_error_leaves_no_state), once the
+      revert-data decoder is total ([f_revert_decode_total], part of [panic_ok]). *)
+  Theorem C08_called_contract_answer_fails_closed : forall F P mf ro value g1 args st st' u n data cap,
+    f_revert_decode_total F = true -> pf_oog_deferred P = true ->
+    validate F (mf_id mf) args <> VPanic ->
+    body (mf_id mf) args st g1 = BNested st' u n data cap ->
+    is_err (r_out (run_handler St body after_mint F P mf ro value g1 args st)) = true.
+  Proof. exact (run_handler_nested_answer St body after_mint). Qed.
 
   (** Gas charged = gas consumed: a successful call is charged exactly RequiredGas plus what the local
       gas meter recorded for the body, and that sum never exceeds the gas forwarded. *)
@@ -116,6 +129,7 @@ Print Assumptions C08_static_never_mutates.
 Print Assumptions C08_query_never_mutates.
 Print Assumptions C08_guarded_query_never_mutates.
 Print Assumptions C08_no_panic_partial.
+Print Assumptions C08_called_contract_answer_fails_closed.
 Print Assumptions C08_gas_charged_is_consumed.
 Print Assumptions C08_cost_independent_of_gas.
 Print Assumptions C08_model_satisfies_property.
@@ -176,6 +190,15 @@ Theorem C08_no_panic_refuted_with_partial_address_conversion :
              PFunToken k 0 1000000 inp 0) = Panic.
 Proof. exact no_panic_refuted_partial_addr_conversion. Qed.
 Print Assumptions C08_no_panic_refuted_with_partial_address_conversion.
+
+(** An evm.NewRevertError that reads the 32-byte code behind the Panic(uint256) selector without a length check
+    panics on FunToken.balance when the registered ERC20 reverts with the bare selector. *)
+Theorem C08_no_panic_refuted_with_unguarded_revert_decoder :
+  exists k inp, input_wf inp = true /\
+    r_out (evm_call Z hostile_token_body sample_after_mint sample_transfer (with_revert_decode reference_facts false)
+             PFunToken k 0 1000000 inp 0) = Panic.
+Proof. exact no_panic_refuted_unguarded_revert_decoder. Qed.
+Print Assumptions C08_no_panic_refuted_with_unguarded_revert_decoder.
 
 (** The boolean checkers evaluated on implementation traces are sound for [P] / [P_nested]. *)
 Theorem C08_checker_sound : forall k value gas m cls left (se ce : bool),
